@@ -1,5 +1,6 @@
 import ScsiVerif.Driver.PVText
 import ScsiVerif.Std.DataIn
+import ScsiVerif.Model.Formats.Encode
 /-!
 Line-protocol access to the oracle `Std.DataIn`: the harness asks Lean for the bytes of a block /
 response as the standard prescribes them (it never encodes a standard structure itself).
@@ -55,6 +56,35 @@ def stdOp (toks : List String) : Option String :=
         | _ => []
       pure ("ok " ++ showBytes (encReadKeys gen keys))
     | _ => none
+  -- mar <builder> <PV> : model of the library's marshall routines (Model/Formats/Encode.lean)
+  | ["mar", name, pv] => do
+    let v ← PVText.parsePV pv
+    let d ← match v with | .dict d => some d | _ => none
+    let r : Except PyErr Bytes := match name with
+      | "readcapacity10" => Enc.readCapacity10 d
+      | "readcapacity16" => Enc.readCapacity16 d
+      | "getlbastatus" => Enc.getLbaStatus d
+      | "reportluns" => Enc.reportLuns d
+      | "reporttargetportgroups" => Enc.reportTargetPortGroups d
+      | "reportpriority" => Enc.reportPriority d
+      | "readelementstatus" => Enc.readElementStatus d
+      | "inquiry" => Enc.inquiry d
+      | "modesense6" => Enc.modeSense6 d
+      | "modesense10" => Enc.modeSense10 d
+      | "transportid" => Enc.transportId d
+      | "designationdescriptor" => Enc.designationDescriptor d
+      | "prout0" => Enc.prOut 0 d
+      | "prout1" => Enc.prOut 1 d
+      | "prout2" => Enc.prOut 2 d
+      | "xcopy4" | "xcopy5" =>
+        let hdr := match PDict.get? d "header" with | some (.dict h) => h | _ => []
+        let ts := match PDict.get? d "targets" with | some (.list l) => l | _ => []
+        let ss := match PDict.get? d "segments" with | some (.list l) => l | _ => []
+        let inl := match PDict.get? d "inline" with | some (.bytes b) => b | _ => []
+        if name == "xcopy4" then Enc.xParameterList Enc.x4 "target_descriptor_parameters" hdr ts ss inl "target_descriptor_list_length"
+        else Enc.xParameterList Enc.x5 "cscd_descriptor_parameters" hdr ts ss inl "cscd_descriptor_list_length"
+      | _ => .error .notImplemented
+    pure (showExceptBytes r)
   | _ => none
 
 end StdOps
